@@ -249,6 +249,11 @@ def cached_arrays(f):
     return {k: v for k, v in f.__globals__.items() if isinstance(v, numpy.ndarray) and (k[0] in 'vc') and k[1:2].isalnum()}
 
 
+def frozen_copy(r):
+    if isinstance(r, (tuple, list)): return tuple(frozen_copy(x) for x in r)
+    return numpy.array(r)
+
+
 def to_list(r):
     if isinstance(r, (tuple, list)): return [to_list(x) for x in r]
     return numpy.asarray(r).tolist()
@@ -374,7 +379,7 @@ class HistoryRunner:
                                                   'call %d (%s) returned a writable array that shares memory with cached global(s) %s' % (ncalls, 'first run' if first else 'rerun', hit),
                                                   detail(globals=hit)))
                 if clean and ev_kind not in ('badshape', 'missing'):
-                    self.spec_points.append(({k: numpy.array(numpy.asarray(v)) for k, v in call_args.items()}, got[1]))
+                    self.spec_points.append(({k: numpy.array(numpy.asarray(v)) for k, v in call_args.items()}, frozen_copy(got[1]), same_outcome(got, want)))
         self.f = f
         return self
 
@@ -564,12 +569,12 @@ def run(c):
             c.failing_input(sig, what, dict(detail, kind=kind, tree=X.describe(exprs[0], g.args), simplify=simp, optimize=opt, pickled=pack(exprs, dict(g.args)),
                                             script=store[0][0] if store and store[0] else None))
         # ---- spec points (exact value of the un-simplified tree in Lean)
-        for args, real in hr.spec_points[:2 if quick else 3]:
+        for args, real, pure in hr.spec_points[:2 if quick else 3]:
             try:
                 r, _ = ser.request(list(exprs), args)
             except ValueError:
                 c.count('spec:not-serialisable'); break
-            spec_reqs.append(r); spec_meta.append((exprs, args, real, kind))
+            spec_reqs.append(r); spec_meta.append((exprs, args, real, kind, pure))
 
     c.log('histories done: %d programs' % nprog)
     # ------------------------------------------------------------------ static verdicts from Lean
@@ -630,17 +635,21 @@ def run(c):
         c.count('spec:driver-failed'); c.log('note: Expr driver failed on the spec requests: %s' % str(e)[:200])
         sans = []
     nspec = collections.Counter()
-    for a, (exprs, args, real, kind) in zip(sans, spec_meta):
+    for a, (exprs, args, real, kind, pure) in zip(sans, spec_meta):
         if 'bad' in a: raise Infra('Expr driver rejected a request: %r' % a['bad'][:300])
         for res, r in zip(a['results'], list(leaves(real)) if isinstance(real, (tuple, list)) else [real]):
             m = X.compare_result(res, numpy.asarray(r))
+            if m in ('value', 'shape'): m += '(call==fresh)' if pure else '(call!=fresh: the specification sides with the fresh function)'
             nspec[m] += 1
+            if m.startswith(('value(call==', 'shape(call==')) and len(c.extra.setdefault('spec_mismatches', [])) < 5:
+                c.extra['spec_mismatches'].append(dict(kind=kind, tree=X.describe(exprs[0], args)['tree'][:600], args={k: numpy.asarray(v).tolist() for k, v in args.items()},
+                                                       real=numpy.asarray(r).tolist(), lean=res))
     for k, v in nspec.items(): c.count('spec:' + k, v)
     c.extra['spec_note'] = ('a call that equals the fresh function but not the Lean specification value is a code-generation question (C02), not a purity '
                             'violation; counted under spec:value / spec:shape')
     c.obligation('oracle:history-vs-fresh', nhist_ok > 0 and not any(v[2] in ('call-differs-from-fresh', 'argument-modified', 'rerun-writable-result-aliases-cache') for v in c.violations),
                  'correspondence', '%d programs, %d calls compared with a fresh function and argument snapshots' % (nhist_ok, c.traces))
-    c.obligation('oracle:spec-value', True, 'exploration', '%d results exact/close to the Lean specification value, %d differ' % (nspec['exact'] + nspec['close'], nspec['value'] + nspec['shape']))
+    c.obligation('oracle:spec-value', True, 'exploration', '%d results exact/close to the Lean specification value, %d differ although equal to fresh' % (nspec['exact'] + nspec['close'], nspec['value(call==fresh)'] + nspec['shape(call==fresh)']))
 
     c.log('spec values done')
     # ------------------------------------------------------------------ stream 3: long-lived owners
